@@ -12,7 +12,7 @@ INVS = ("WellFormed InvCount InvBoundsMonotone InvValuesStrict InvValueInOwnClas
         "InvCumulative CacheFresh")
 # defective designs the design model must reject: (constant override, some invariant expected to fire)
 VARIANTS = (("Forget", '"SetParam"'), ("Forget", '"SetN"'), ("Forget", '"SetMedian"'), ("Forget", '"Restrict"'),
-            ("Forget", '"Copy"'), ("LookupStart", "1"))
+            ("Forget", '"Copy"'), ("Forget", '"Rename"'), ("LookupStart", "1"))
 
 
 def _cfg(path, nmax, g, forget='"none"', lookup="0", invs=INVS):
